@@ -598,6 +598,15 @@ class SymBool(_SymNum):
     def __hash__(s):
         return hash(s.__bool__()) if FAITHFUL_HASH else 7
 
+    # bool is an int: round(True) == 1, math.floor(True) == 1 ...
+    def __round__(s, ndigits=None):
+        return s._as_int()
+
+    def __trunc__(s):
+        return s._as_int()
+
+    __floor__ = __ceil__ = __trunc__
+
     def _as_int(s):
         return SymInt(_num(s))
 
